@@ -69,6 +69,7 @@ ASSUME = [
     "Client internals _sock and _connected are set directly to attach the client to a socketpair (documented private poke, as in Engine D)",
     "send_signal takes a bare message id and cannot know a hash; only send_message is covered by (e); the version field of send_signal headers and of classes without type_hash is a don't-care",
     "the hand-written classes of the send sequences are built with MessageMeta on MessageData; they are registered with pyrtma.message_def only by explicit 'register' steps, and pyrtma.message._msg_defs is restored after every sequence",
+    "near-miss definitions (a field named type_id, type_name, type_hash, type_source, type_def, type_size or hexdump) are expected to be rejected; a rejection is only counted, an acceptance subjects the definition set to (d) and (e)",
     "a well-formed closure the parser rejects (not expected; generator is sound on the reference tree) is counted as inconclusive, acceptance is not this property",
 ]
 
@@ -724,7 +725,8 @@ for n in dir(mod):
     if n.startswith("MDF_") and isinstance(cls, type) and cls.__module__ == "gen_defs":
         c.send_message(cls())
         f = struct.unpack_from("<iiddhhhhiiiI", rd(hs)); rd(f[8])
-        out[n[4:]] = {"version": f[11], "msg_type": f[0], "type_hash": cls.type_hash, "type_id": cls.type_id}
+        th = cls.__dict__.get("type_hash", getattr(cls, "type_hash", None))
+        out[n[4:]] = {"version": f[11], "msg_type": f[0], "type_hash": th if isinstance(th, int) else repr(th), "type_id": cls.type_id}
 print("RESULT" + json.dumps(out))
 """
 
@@ -771,13 +773,45 @@ def check_generated_stamping(p: G.Program, res: Result = None, timecode: bool = 
         for n, g in got.items():
             want = int(dg[n][:8], 16)
             if g["version"] != want:
+                th = f"{g['type_hash']:#010x}" if isinstance(g["type_hash"], int) else g["type_hash"]
                 raise Violation("header-version-not-stamped", f"send_message(MDF_{n}) of the generated module put {g['version']:#010x} into the "
-                                f"header's version field (type_hash {g['type_hash']:#010x}); the parser's digest starts with {dg[n][:8]}", trace)
+                                f"header's version field (class attribute type_hash: {th}); the parser's digest starts with {dg[n][:8]}", trace)
             if res is not None:
                 res.count("headers-checked/generated")
                 res.shape("stamp", "generated", timecode, msg_shape(p, n) if n in user else ("core",))
     finally:
         shutil.rmtree(d, ignore_errors=True)
+
+
+# ----------------------------------------------------------------------------------------------
+# near misses: definitions that must be rejected because a field uses a reserved name
+
+
+def check_nearmiss(p: G.Program, res: Result = None):
+    """p is expected to be rejected (p.expected_error).  A rejection is only counted.  If the compiler ACCEPTS it, the accepted
+    definition set is subject to the property like any other: (d) the four outputs carry the parser's digest prefix for every
+    message, (e) instances of the generated classes carry it in the header's version field."""
+    out = G.parse_program(p)
+    cls = next((c for c in p.classes if c.startswith("reserved-field-name/")), "near-miss")
+    if not out.ok:
+        if res is not None:
+            res.count("near-miss/rejected" if out.outcome == p.expected_error else f"near-miss/rejected-with-{out.outcome}")
+            res.count("near-miss/" + cls)
+        return
+    if res is not None:
+        res.count("near-miss/ACCEPTED/" + cls)
+    try:
+        check_outputs(p, res)
+        check_generated_stamping(p, res)
+    except Violation as v:
+        raise Violation(v.key, f"[a definition with a field named {p.expect.get('field')!r} in {p.expect.get('at')} - a reserved name, rejected "
+                        f"by the reference compiler - was accepted] {v.what}", {"stamp": "near-miss", "program": p.to_json()})
+
+
+def nearmiss_case(k: int) -> G.Program:
+    names = list(G.RESERVED_FIELD_NAMES)
+    base = G.random_program(500 + k, import_coredefs=False, auto_pad=True, validate_alignment=True, min_messages=2, max_files=3)
+    return G.add_reserved_field_name(base, G.RandomChooser(k), name=names[k % len(names)], kinds=("message",) if k < len(names) else ("struct",))
 
 
 # ----------------------------------------------------------------------------------------------
@@ -829,9 +863,18 @@ def shard(idx: int, seed: int, n_meta: int, out_every: int, n_proc: int, n_stamp
             check_core_stamping(res)
         if idx == 1:
             sequence_table(res)
+        # every reserved field name in a message (shards 0-6) and in a struct (7-13)
+        if idx < 2 * len(G.RESERVED_FIELD_NAMES):
+            res.evaluations += 1
+            q = nearmiss_case(idx)
+            if q is not None:
+                check_nearmiss(q, res)
     except Violation as v:
         res.add_finding(v.key, v.what, v.trace)
     hyp_run(lambda v: run_sequence(v[0], [list(o) for o in v[1]], res), st_sequences(), seed + 9, n_seq, res)
+    sb = G.ShrinkBudget(10)
+    hyp_run(sb.body(lambda p: check_nearmiss(p, res) if p.expected_error else None),
+            sb.wrap(G.programs(allow=("reserved-field-name",), import_coredefs=False, auto_pad=True, max_files=3)), seed + 11, max(1, n_seq // 10), res)
     return res
 
 
@@ -851,6 +894,8 @@ def replay_trace(trace: dict):
         check_outputs(G.Program.from_json(trace["outputs"]))
     elif "processes" in trace:
         check_processes([G.Program.from_json(trace["processes"])], black=trace.get("black", False))
+    elif trace.get("stamp") == "near-miss":
+        check_nearmiss(G.Program.from_json(trace["program"]))
     elif trace.get("stamp") == "sequence":
         run_sequence(trace["timecode"], trace["ops"])
     elif trace.get("stamp") == "core":
